@@ -219,4 +219,49 @@ theorem forChildrenF_eq (f : Framing) (tbl : Table) (k : Kind) (typ : String) (s
       rw [← hinv]; exact BR.advance_all b
     simp only [hadv, BR.stepRead_eq, BR.handlerRead, List.append_nil]
 
+
+/-! ### the header read from the start element -/
+
+theorem foldl_hdrStep_filter (k : Kind) (attrs : List Attr) : ∀ h : Hdr,
+    attrs.foldl (hdrStep k) h = (attrs.filter fun a => a.name.space == "").foldl (hdrStep k) h := by
+  induction attrs with
+  | nil => intro h; rfl
+  | cons a as ih =>
+    intro h
+    by_cases hs : a.name.space = ""
+    · simp [hs, ih]
+    · have : hdrStep k h a = h := by simp [hdrStep, hs]
+      simp [hs, this, ih]
+
+theorem stanzaHdr_filter (k : Kind) (attrs : List Attr) :
+    stanzaHdr k attrs = stanzaHdr k (attrs.filter fun a => a.name.space == "") :=
+  foldl_hdrStep_filter k attrs _
+
+theorem hdrStep_typ_other (k : Kind) (h : Hdr) (a : Attr) (ha : ownAttr a "type" = false) :
+    (hdrStep k h a).typ = h.typ := by
+  unfold hdrStep
+  by_cases hs : a.name.space = ""
+  · have hl : a.name.loc ≠ "type" := by simpa [ownAttr, hs] using ha
+    simp only [hs, bne_self_eq_false, Bool.false_eq_true, if_false]
+    split
+    · rename_i h1; simp at h1; exact absurd h1 hl
+    · split
+      · rfl
+      · split
+        · split <;> rfl
+        · split
+          · split <;> rfl
+          · rfl
+  · simp [hs]
+
+theorem foldl_hdrStep_typ (k : Kind) (attrs : List Attr) : ∀ h : Hdr,
+    (∀ a ∈ attrs, ownAttr a "type" = false) → (attrs.foldl (hdrStep k) h).typ = h.typ := by
+  induction attrs with
+  | nil => intro h _; rfl
+  | cons a as ih =>
+    intro h hall
+    simp only [List.foldl_cons]
+    rw [ih _ (fun b hb => hall b (List.mem_cons_of_mem _ hb))]
+    exact hdrStep_typ_other k h a (hall a (List.mem_cons_self ..))
+
 end XmppModel.Mux
